@@ -94,3 +94,117 @@ def all_consumers(eng):
             bound = any(b for (tt, b) in eng.res.call_targets(ci.caller, ci.node) if tt.fid == fid)
             out.append(Consumer(ci.caller, eng.cfg(ci.caller), ci.node, t, bind_call(ci.node, t, bound and t.is_method)))
     return out
+
+
+# ------------------------------------------------------------------------------------------------ shared rules
+def inplace_written_fields(eng, cls="Model"):
+    """Fields of `cls` that have in-place element writers (self.F[...] = v / self.F[...] op= v)."""
+    out = {}
+    ci = eng.prog.cls(cls)
+    for m in ci.methods.values():
+        selfn = m.posparams[0] if m.posparams else None
+        for node in eng.prog.own_nodes(m):
+            tg = node.targets if isinstance(node, ast.Assign) else ([node.target] if isinstance(node, ast.AugAssign) else [])
+            for t in tg:
+                if isinstance(t, ast.Subscript):
+                    root = t
+                    while isinstance(root, ast.Subscript):
+                        root = root.value
+                    if isinstance(root, ast.Attribute) and isinstance(root.value, ast.Name) and root.value.id == selfn:
+                        out.setdefault(root.attr, set()).add(m.qualname)
+    return out
+
+
+def rule_snapshots_are_copies(eng, rep, rule, sinks, what):
+    """T11: no value reaching `sinks` may be a view/alias of a Model array that has in-place writers (every flow must pass a copy)."""
+    vfg = eng.vfg
+    writers = inplace_written_fields(eng)
+    srcs = set(("f", "Model", f) for f in writers)
+
+    def follow(src, kind, info, dst):
+        if kind not in ("copy", "sel", "proj", "tup", "default", "index"):
+            return False
+        if isinstance(info, str) and info.startswith("via"):
+            return False          # .copy() / np.array() / astype(): a fresh object
+        return True
+
+    w = vfg.back(sinks, follow, stop=lambda n: n in srcs)
+    hit = [n for n in srcs if n in w.nodes]
+    for n in sorted(hit):
+        path = w.path(n)
+        # the construct to blame: the last expression on the path before the live array
+        where = path[-2] if len(path) >= 2 else vfg.describe(n)
+        rep.bad(rule, where.split("   <-")[0], "alias|%s->%s" % ("%s.%s" % (n[1], n[2]), what),
+                "%s can be a view of %s.%s, which is updated in place by %s: later updates silently change the snapshot"
+                % (what, n[1], n[2], sorted(writers[n[2]])), path=path[-10:])
+    if not hit:
+        rep.ok(rule, what, "no copy-free path from an in-place-updated Model array (%s) to %s" % (", ".join(sorted(writers)), what))
+    # matcher alive: with copies allowed the live arrays must be reachable from the sinks
+    w2 = vfg.back(sinks, lambda a, k, i, d: k in ("copy", "sel", "proj", "tup", "default", "index"))
+    if not any(n in w2.nodes for n in srcs):
+        rep.unknown(rule, what, "the snapshot does not originate from any live Model array at all -- anchor lost")
+
+
+def rule_mean_over_samples_run(eng, rep, rule):
+    """Every use of an evaluation buffer (zero-padded to the requested number of samples) in a mean / as an argument of another routine
+    must be sliced to the number of samples actually run."""
+    pos = result_positions(eng)
+    pairs = []     # (fi, buffer name, counter name, defining cfg node or None)
+    for es in eval_sites(eng):
+        for (un, names) in es.unpacks:
+            if len(names) == len(pos):
+                pairs.append((es.fi, names[0], names[2]))
+    # the producers themselves: functions that fill the buffer from the sink call
+    from .anchors import anchors
+    A = anchors(eng)
+    for ci in A.sink_calls:
+        fi = ci.caller
+        st = eng.prog.stmt_of(ci.node)
+        if isinstance(st, ast.Assign) and isinstance(st.targets[0], (ast.Tuple, ast.List)) and isinstance(st.targets[0].elts[0], ast.Subscript):
+            buf = st.targets[0].elts[0].value
+            if isinstance(buf, ast.Name):
+                cfg = eng.cfg(fi)
+                cn = cfg.cfg_node(ci.node)
+                cnt = None
+                for m, e in cfg.succ(cn, with_exc=False):
+                    s2 = cfg.ast_of(m)
+                    if isinstance(s2, ast.AugAssign) and isinstance(s2.target, ast.Name):
+                        cnt = s2.target.id
+                if cnt:
+                    pairs.append((fi, buf.id, cnt))
+    seen = set()
+    n = 0
+    for (fi, buf, cnt) in pairs:
+        if (fi.fid, buf, cnt) in seen:
+            continue
+        seen.add((fi.fid, buf, cnt))
+        for node in eng.prog.own_nodes(fi):
+            if not isinstance(node, ast.Call):
+                continue
+            ci = eng.res.calls.get(id(node))
+            is_mean = ci is not None and ci.kind == "LIB" and ci.libname in ("numpy.mean", "numpy.average", "numpy.sum", "numpy.median")
+            is_internal = ci is not None and bool(ci.targets) and not any(t.fid.startswith("model.Model.add_new_sample") for t in ci.targets)
+            if not (is_mean or is_internal):
+                continue
+            for a in list(node.args) + [kw.value for kw in node.keywords]:
+                if isinstance(a, ast.Call):
+                    continue      # nested calls are visited on their own
+                if buf not in [s.id for s in ast.walk(a) if isinstance(s, ast.Name)]:
+                    continue
+                n += 1
+                site = eng.where(fi, node)
+                okc = False
+                how = ""
+                if isinstance(a, ast.Subscript) and isinstance(a.value, ast.Name) and a.value.id == buf:
+                    sl = a.slice.elts[0] if isinstance(a.slice, ast.Tuple) else a.slice
+                    if isinstance(sl, ast.Slice) and sl.lower is None and sl.upper is not None and ekey(sl.upper) == cnt:
+                        okc, how = True, "%s[:%s, :]" % (buf, cnt)
+                    elif not isinstance(sl, ast.Slice):
+                        okc, how = True, "a single sample row %s" % ekey(a)      # row 0 / row i of range(1, counter): checked by the caller's loop bound
+                if okc:
+                    rep.ok(rule, site, "%s receives %s" % (ekey(node.func), how), nontrivial=is_mean)
+                else:
+                    rep.bad(rule, site, "%s|buffer-not-sliced-to-samples-run|%s" % (fi.fid, ekey(node.func)[:30]),
+                            "`%s` uses the evaluation buffer `%s` without slicing it to the %s samples actually run: unfilled zero rows enter the result when the budget ends mid-point"
+                            % (ekey(node)[:70], ekey(a)[:40], cnt))
+    rep.require_count(rule, "uses of evaluation buffers in means / calls", n, 15)
